@@ -700,6 +700,14 @@ def fit_rewrite(ctx, prog1, prog2):
         s.add(fit)
         s.commit()
         first = shape_of(fit.model)
+        # what a caller does to the model it was handed does not show in the next read (the rows are what is stored)
+        handed = fit.model
+        handed.c08_extra_parameter = af.UniformPrior(lower_limit=0.0, upper_limit=1.0)
+        reread = shape_of(fit.model)
+        if reread != first:
+            ctx.fail("C08-fit-model-not-last-written", "Fit.model read again after the caller changed the model object it was handed is not "
+                     "the model that was written", case, {"first_paths": first["paths"][:5], "second_paths": reread["paths"][:5]})
+            return
         fit.model = m2
         s.commit()
         second = shape_of(fit.model)
